@@ -51,6 +51,9 @@ def shape_programs(thorough):
     if not thorough:
         l2 = [s for s in shs if s.depth == 2]
         picked = l2[::3] + [s for s in l2 if not space.compilable(s)]
+        # ... and the depth-2 shapes of the shared type build of C02 / C05 / C10 / C14, so that
+        # anything that stops compiling there is a C03 verdict here
+        picked += [s for s in [x for x in l2 if space.compilable(x)][::4] if s not in picked]
         # every double below a set / map key switches to the DoubleKey form: keep all of those
         picked += [s for s in l2 if s.has_double and s.text.startswith(("set<", "map<double", "map<AliasDbl")) and s not in picked]
         shs = [s for s in shs if s.depth < 2] + picked
@@ -208,6 +211,12 @@ def service_programs():
     return progs
 
 
+def special_type_programs():
+    """the recursion / field-count / enum / union families of the shared type build"""
+    extra, _ = space.special_types()
+    return [Program("special_types", "recursion, field-count, enum and union families of the shared type space", space.ir(space.FIXED_TYPES + extra), cls="special-types")]
+
+
 def external_programs():
     """external (imported) types with every primitive fallback in every position, keys included"""
     progs = []
@@ -252,7 +261,7 @@ def run(a, rep):
     t0 = time.time()
     progs = []
     sp, shs = shape_programs(thorough)
-    progs += sp + param_programs() + name_programs(thorough) + [recursion_program()] + package_programs() + service_programs() + external_programs() + config_programs()
+    progs += sp + param_programs() + name_programs(thorough) + [recursion_program()] + package_programs() + service_programs() + external_programs() + special_type_programs() + config_programs()
     ids = [p.pid for p in progs]
     dup = sorted({i for i in ids if ids.count(i) > 1})
     if dup:
